@@ -90,15 +90,15 @@ fn gen_msg(rng: &mut Rng) -> RtmpMessage {
         7 => RtmpMessage::VideoData { data: Bytes::from(gen_bytes(rng)) },
         8 => {
             let n = rng.below(4) as usize;
-            RtmpMessage::Amf0Data { values: (0..n).map(|_| gen_value(rng, 2, false)).collect() }
+            { let odd = rng.chance(1, 8); RtmpMessage::Amf0Data { values: (0..n).map(|_| gen_value(rng, 2, odd)).collect() } }
         }
         9 => {
             let n = rng.below(4) as usize;
             RtmpMessage::Amf0Command {
                 command_name: rng.pick(&["connect", "_result", "onStatus", "", "play", "h\u{e9}"]).to_string(),
                 transaction_id: f64::from_bits(if rng.chance(1, 2) { (rng.below(9) as f64).to_bits() } else { rng.next() }),
-                command_object: gen_value(rng, 2, false),
-                additional_arguments: (0..n).map(|_| gen_value(rng, 2, false)).collect(),
+                command_object: { let odd = rng.chance(1, 8); gen_value(rng, 2, odd) },
+                additional_arguments: { let odd = rng.chance(1, 8); (0..n).map(|_| gen_value(rng, 2, odd)).collect() },
             }
         }
         _ => {
